@@ -70,7 +70,94 @@ Section GoodD.
                 end)
     end.
   Proof. reflexivity. Qed.
+
+  (** *** a response key selected more than once: the selection sets taken together *)
+  Lemma is_nil_concat (subs : list (list selection)) : (forall sub, In sub subs -> is_nil sub = true) -> is_nil (List.concat subs) = true.
+  Proof.
+    induction subs as [|x r IH]; intros H; [reflexivity|]. simpl.
+    pose proof (H x (or_introl eq_refl)) as Hx. destruct x; [|discriminate]. simpl. apply IH. intros sub Hs. apply H. right. exact Hs.
+  Qed.
+
+  Lemma conf_val_concat (subs : list (list selection)) ft : forall nn w,
+    subs <> [] ->
+    (forall sub, In sub subs -> conf_val (leafc sub) (objc sub) ft nn w = true) ->
+    conf_val (leafc (List.concat subs)) (objc (List.concat subs)) ft nn w = true.
+  Proof.
+    induction ft as [n|ft IH|ft IH]; intros nn w Hne H.
+    - destruct subs as [|s0 r]; [contradiction|]. pose proof (H s0 (or_introl eq_refl)) as H0.
+      destruct w as [|l|l|tn fs]; simpl in *.
+      + exact H0.
+      + unfold leafc in *. apply andb_true_iff in H0 as [H0 _]. rewrite H0. simpl.
+        apply (is_nil_concat (s0 :: r)). intros sub Hs. specialize (H sub Hs). apply andb_true_iff in H as [_ H]. exact H.
+      + exact H0.
+      + unfold objc in *. apply andb_true_iff in H0 as [H0 _]. rewrite H0. simpl.
+        apply forallb_forall. intros x Hx. change (s0 ++ List.concat r) with (List.concat (s0 :: r)) in Hx.
+        apply in_concat in Hx as [sub [Hs Hx]]. specialize (H sub Hs). apply andb_true_iff in H as [_ H].
+        rewrite forallb_forall in H. apply H. exact Hx.
+    - destruct subs as [|s0 r]; [contradiction|]. pose proof (H s0 (or_introl eq_refl)) as H0.
+      destruct w as [|l|l|tn fs]; simpl in *; try exact H0.
+      apply forallb_forall. intros x Hx. apply IH; [discriminate|].
+      intros sub Hs. specialize (H sub Hs). rewrite forallb_forall in H. apply H. exact Hx.
+    - simpl. apply IH; [exact Hne|]. intros sub Hs. apply (H sub Hs).
+  Qed.
+
+  Lemma exp_val_concat (subs : list (list selection)) ft : forall w p x,
+    subs <> [] ->
+    (In (p, x) (exp_val (obje (List.concat subs)) ft w) <-> exists sub, In sub subs /\ In (p, x) (exp_val (obje sub) ft w)).
+  Proof.
+    induction ft as [n|ft IH|ft IH]; intros w p x Hne.
+    - destruct subs as [|s0 r]; [contradiction|].
+      destruct w as [|l|l|tn fs]; simpl.
+      + split; [intros H; exists s0; split; [left; reflexivity | exact H] | intros [sub [_ H]]; exact H].
+      + split; [intros H; exists s0; split; [left; reflexivity | exact H] | intros [sub [_ H]]; exact H].
+      + split; [intros [] | intros [sub [_ []]]].
+      + unfold obje. change (s0 ++ List.concat r) with (List.concat (s0 :: r)). rewrite in_flat_map. split.
+        * intros [y [Hy Hp]]. apply in_concat in Hy as [sub [Hs Hy]]. exists sub. split; [exact Hs|].
+          apply in_flat_map. exists y. split; assumption.
+        * intros [sub [Hs Hp]]. apply in_flat_map in Hp as [y [Hy Hp]]. exists y. split; [|exact Hp].
+          apply in_concat. exists sub. split; assumption.
+    - destruct subs as [|s0 r] eqn:Es; [contradiction|]. rewrite <- Es in *.
+      assert (Hs0 : In s0 subs) by (rewrite Es; left; reflexivity).
+      destruct w as [|l|[|y l]|tn fs]; simpl.
+      + split; [intros H; exists s0; split; [exact Hs0 | exact H] | intros [sub [_ H]]; exact H].
+      + split; [intros H; exists s0; split; [exact Hs0 | exact H] | intros [sub [_ H]]; exact H].
+      + split; [intros H; exists s0; split; [exact Hs0 | exact H] | intros [sub [_ H]]; exact H].
+      + change (prefix (PIdx 0) (exp_val (obje (List.concat subs)) ft y) ++ exp_list (exp_val (obje (List.concat subs)) ft) 1 l)
+          with (exp_list (exp_val (obje (List.concat subs)) ft) 0 (y :: l)).
+        rewrite exp_list_In. split.
+        * intros [k [w' [p' [H1 [H2 H3]]]]]. apply (IH w' p' x Hne) in H3 as [sub [Hs H3]]. exists sub. split; [exact Hs|].
+          change (prefix (PIdx 0) (exp_val (obje sub) ft y) ++ exp_list (exp_val (obje sub) ft) 1 l)
+            with (exp_list (exp_val (obje sub) ft) 0 (y :: l)).
+          apply exp_list_In. exists k, w', p'. repeat split; assumption.
+        * intros [sub [Hs H]].
+          change (prefix (PIdx 0) (exp_val (obje sub) ft y) ++ exp_list (exp_val (obje sub) ft) 1 l)
+            with (exp_list (exp_val (obje sub) ft) 0 (y :: l)) in H.
+          apply exp_list_In in H as [k [w' [p' [H1 [H2 H3]]]]]. exists k, w', p'. split; [exact H1|]. split; [exact H2|].
+          apply (IH w' p' x Hne). exists sub. split; assumption.
+      + split; [intros H; exists s0; split; [exact Hs0 | exact H] | intros [sub [_ H]]; exact H].
+    - simpl. apply IH. exact Hne.
+  Qed.
 End GoodD.
+
+(** the selection sets of the selections of response key [k] *)
+Definition field_subs (k : name) (all : list selection) : list (list selection) :=
+  flat_map (fun o => match o with SField a f sub => if bytes_eqb (sel_key a f) k then [sub] else [] | _ => [] end) all.
+
+Lemma merged_field_concat k all : merged_field k all = List.concat (field_subs k all).
+Proof.
+  unfold merged_field, field_subs. induction all as [|o r IH]; [reflexivity|]. simpl.
+  destruct o as [a f sub| |]; simpl; try exact IH.
+  destruct (bytes_eqb (sel_key a f) k); simpl; [rewrite IH; reflexivity | exact IH].
+Qed.
+
+Lemma field_subs_In k all sub : In sub (field_subs k all) <-> exists a f, In (SField a f sub) all /\ sel_key a f = k.
+Proof.
+  unfold field_subs. rewrite in_flat_map. split.
+  - intros [o [Ho H]]. destruct o as [a f sub'| |]; try (destruct H).
+    destruct (bytes_eqb (sel_key a f) k) eqn:E; [|destruct H]. destruct H as [H|[]]. subst sub'.
+    exists a, f. split; [exact Ho | apply bytes_eqb_true; exact E].
+  - intros [a [f [H E]]]. exists (SField a f sub). split; [exact H|]. rewrite E, bytes_eqb_refl. left. reflexivity.
+Qed.
 
 Lemma syntax_fields_inner fs :
   (fix go (fs : list (name * gotag * gotype)) : bool :=
@@ -120,7 +207,8 @@ Section FinalDecode.
   Hypothesis E2 : members_distinct m all = true.
   Hypothesis E3 : forall s, In s all -> sel_local S frs m s = true.
   Hypothesis E4 : has_fragment all = true -> is_object_type S m = true \/ exists k, first_typename all = Some k.
-  Hypothesis E5 : NoDup (map (fun kf : name * name => lower_bytes (fst kf)) (direct_fields all)).
+  Hypothesis E5 : forall k1 f1 k2 f2, In (k1, f1) (direct_fields all) -> In (k2, f2) (direct_fields all) ->
+                                      lower_bytes k1 = lower_bytes k2 -> k1 = k2 /\ f1 = f2.
   Hypothesis E6 : forall k f, In (k, f) (direct_fields all) ->
                               begins_with_letter k = true \/ (is_typename k = true /\ is_typename f = true).
 
@@ -204,7 +292,10 @@ Section FinalDecode.
         let k := sel_key a f in
         exists T w v L, In (k, (T, false)) fields /\ assoc k rfs = Some w /\
                         (forall fuel, K <= fuel -> decode P fuel T (json_of w) = DOk v) /\
-                        leaves_eq v L /\ exp_sel S tn m rfs s = prefix (PKey (lower_bytes k)) L
+                        leaves_eq v L /\
+                        (forall pl, In pl (exp_sel S tn m rfs s) -> In pl (prefix (PKey (lower_bytes k)) L)) /\
+                        (forall pl, In pl (prefix (PKey (lower_bytes k)) L) ->
+                                    exists s', In s' all /\ In pl (exp_sel S tn m rfs s'))
     | SInline c sub =>
         let c' := inline_cond m c in
         subtype S tn c' = true ->
@@ -248,14 +339,45 @@ Section FinalDecode.
       + rewrite Htn in Hcs. destruct w as [|[| | |x|]| |]; try discriminate. subst T.
         exists 1, GString, (RLeaf (LStr x)), (VStr x), [([], LStr x)].
         split; [exact He|]. split; [reflexivity|]. split; [intros [|fuel] Hf; [lia | reflexivity]|].
-        split; [intros pl; simpl; reflexivity|]. rewrite exp_sel_field, Ea, Htn. reflexivity.
+        split; [intros pl; simpl; reflexivity|].
+        assert (Ex : exp_sel S tn m rfs (SField a f sub) = prefix (PKey (lower_bytes (sel_key a f))) [([], LStr x)])
+          by (rewrite exp_sel_field, Ea, Htn; reflexivity).
+        split; [intros pl Hp; rewrite <- Ex; exact Hp|].
+        intros pl Hp. exists (SField a f sub). split; [exact Hs | rewrite Ex; exact Hp].
       + rewrite Htn, Eft in Hcs. subst T. rewrite syntax_ok_wrap in HsynT.
         destruct (Hg P HP HsynT) as [Hleaf Hobj].
-        destruct (decode_wrap P core0 (leafc S sub) (objc S sub) (obje S sub) (unwrap ft) Hleaf Hobj ft false w eq_refl Hcs)
+        set (k0 := sel_key a f) in *.
+        assert (Hsub_in : In sub (field_subs k0 all)) by (apply field_subs_In; exists a, f; split; [exact Hs | reflexivity]).
+        assert (Hne : field_subs k0 all <> []) by (intro En; rewrite En in Hsub_in; destruct Hsub_in).
+        assert (Hdf : In (k0, f) (direct_fields all)).
+        { unfold direct_fields. apply in_flat_map. exists (SField a f sub). split; [exact Hs | left; reflexivity]. }
+        (* every selection of this key selects field [f], and conforms *)
+        assert (Hothers : forall sub', In sub' (field_subs k0 all) ->
+                  exists a', In (SField a' f sub') all /\ sel_key a' f = k0 /\
+                             conf_val (leafc S sub') (objc S sub') ft false w = true).
+        { intros sub' Hs'. apply field_subs_In in Hs' as [a' [f' [Hs' Ek]]].
+          assert (Hdf' : In (k0, f') (direct_fields all)).
+          { unfold direct_fields. apply in_flat_map. exists (SField a' f' sub'). split; [exact Hs'|]. left. rewrite Ek. reflexivity. }
+          destruct (E5 _ _ _ _ Hdf' Hdf eq_refl) as [_ Ef]. subst f'.
+          exists a'. split; [exact Hs'|]. split; [exact Ek|].
+          pose proof (Hc _ Hs') as Hc'. rewrite conf_sel_field, Ek in Hc'. fold k0 in Ea. rewrite Ea, Htn, Eft in Hc'. exact Hc'. }
+        assert (Hcmg : conf_val (leafc S (merged_field k0 all)) (objc S (merged_field k0 all)) ft false w = true).
+        { rewrite merged_field_concat. apply conf_val_concat; [exact Hne|].
+          intros sub' Hs'. destruct (Hothers sub' Hs') as [a' [_ [_ H]]]. exact H. }
+        destruct (decode_wrap P core0 (leafc S (merged_field k0 all)) (objc S (merged_field k0 all)) (obje S (merged_field k0 all))
+                              (unwrap ft) Hleaf Hobj ft false w eq_refl Hcmg)
           as [k [v [Hd Hl]]].
-        exists k, (wrap ft false core0 true), w, v, (exp_val (obje S sub) ft w).
+        exists k, (wrap ft false core0 true), w, v, (exp_val (obje S (merged_field k0 all)) ft w).
         split; [exact He|]. split; [reflexivity|]. split; [exact Hd|]. split; [exact Hl|].
-        rewrite exp_sel_field, Ea, Htn, Eft. reflexivity.
+        split.
+        * intros [p x] Hp. rewrite exp_sel_field in Hp. fold k0 in Hp. rewrite Ea, Htn, Eft in Hp.
+          apply In_prefix in Hp as [p' [Ep Hp]]. apply In_prefix. exists p'. split; [exact Ep|].
+          rewrite merged_field_concat. apply (exp_val_concat S _ ft w p' x Hne). exists sub. split; assumption.
+        * intros [p x] Hp. apply In_prefix in Hp as [p' [Ep Hp]]. rewrite merged_field_concat in Hp.
+          apply (exp_val_concat S _ ft w p' x Hne) in Hp as [sub' [Hs' Hp]].
+          destruct (Hothers sub' Hs') as [a' [Hin [Ek _]]].
+          exists (SField a' f sub'). split; [exact Hin|]. rewrite exp_sel_field, Ek, Ea, Htn, Eft.
+          apply In_prefix. exists p'. split; assumption.
     - (* inline fragment *)
       simpl in Hcov. destruct Hcov as [core0 [He Hg]]. simpl in Hloc. apply andb_true_iff in Hloc as [Hcc _].
       set (c' := inline_cond m c) in *.
@@ -333,9 +455,7 @@ Section FinalDecode.
   Proof.
     intros H1 H2 E. destruct (field_key_props _ _ H1) as [a1 [f1 [s1 [_ [_ D1]]]]].
     destruct (field_key_props _ _ H2) as [a2 [f2 [s2 [_ [_ D2]]]]].
-    assert (H : (k1, f1) = (k2, f2)).
-    { apply (NoDup_map_inj (fun kf : name * name => lower_bytes (fst kf)) (direct_fields all) _ _ E5 D1 D2). exact E. }
-    inversion H. reflexivity.
+    destruct (E5 _ _ _ _ D1 D2 E) as [H _]. exact H.
   Qed.
 
   Lemma fs_names_nd : NoDup (map gf_name fs).
@@ -390,7 +510,10 @@ Section FinalDecode.
       nth_error fs i = Some (mk_field (sel_key a f, (T, false))) /\
       nth_error base i = Some (gf_name (mk_field (sel_key a f, (T, false))), gf_tag (mk_field (sel_key a f, (T, false))), v) /\
       assoc (sel_key a f) rfs = Some w /\ decode P K T (json_of w) = DOk v /\
-      leaves_eq v L /\ exp_sel S tn m rfs (SField a f sub) = prefix (PKey (lower_bytes (sel_key a f))) L.
+      leaves_eq v L /\
+      (forall pl, In pl (exp_sel S tn m rfs (SField a f sub)) -> In pl (prefix (PKey (lower_bytes (sel_key a f))) L)) /\
+      (forall pl, In pl (prefix (PKey (lower_bytes (sel_key a f))) L) ->
+                  exists s', In s' all /\ In pl (exp_sel S tn m rfs s')).
   Proof.
     intros Hs. pose proof (HK _ Hs) as Hq. simpl in Hq.
     destruct Hq as [T [w [v [L [He [Ha [Hd [Hl Hx]]]]]]]].
@@ -401,7 +524,7 @@ Section FinalDecode.
     unfold dec in Hdv. rewrite (Hd K (le_n _)) in Hdv. inversion Hdv as [Ev].
     exists i, T, w, v, L. split; [exact He|]. split; [exact Hi|]. split.
     { rewrite Hei. destruct e as [[n0 tg0] x0]. simpl in He1, Ev. inversion He1; subst. reflexivity. }
-    split; [exact Ha|]. split; [apply Hd; apply le_n|]. split; assumption.
+    split; [exact Ha|]. split; [apply Hd; apply le_n|]. split; [exact Hl | exact Hx].
   Qed.
 
   (** the field holding __typename holds [tn] *)
@@ -644,7 +767,7 @@ Section FinalDecode.
         assert (i' = i) by (apply (nodup_map_nth gf_name fs i' i _ _ fs_names_nd Hi' Ef); reflexivity). subst i'.
         rewrite fired_entry in Hno. rewrite (Hno (fired_nondash _ _ Hent)) in Hi. rewrite Hb in Hi. injection Hi as Ee. subst e.
         rewrite (field_leaves_nondash _ _ _ Hent) in Hpl.
-        exists (SField a f sub). split; [exact Hs|]. rewrite Hx. apply In_prefix in Hpl as [p' [Ep Hp']].
+        destruct Hx as [_ Hx2]. apply Hx2. apply In_prefix in Hpl as [p' [Ep Hp']].
         apply In_prefix. exists p'. split; [exact Ep | apply Hl; exact Hp'].
     - (* a selected leaf is a leaf of the struct *)
       intros [s [Hs Hpl]]. destruct s as [a f sub|c sub|F c body].
@@ -652,7 +775,7 @@ Section FinalDecode.
         destruct (Hres _ _ Hi) as [_ Hno]. rewrite fired_entry in Hno.
         pose proof (Hno (fired_nondash _ _ He)) as Hsv. rewrite Hb in Hsv.
         eexists. split; [apply (nth_error_In _ _ Hsv)|]. rewrite (field_leaves_nondash _ _ _ He).
-        rewrite Hx in Hpl. apply In_prefix in Hpl as [p' [Ep Hp']]. apply In_prefix. exists p'. split; [exact Ep | apply Hl; exact Hp'].
+        destruct Hx as [Hx1 _]. apply Hx1 in Hpl. apply In_prefix in Hpl as [p' [Ep Hp']]. apply In_prefix. exists p'. split; [exact Ep | apply Hl; exact Hp'].
       + simpl in Hpl. destruct (subtype S tn (inline_cond m c)) eqn:Esub; [|destruct Hpl].
         pose proof (HK _ Hs) as Hq. simpl in Hq. destruct (Hq Esub) as [T [v [He [Hd [Hn Hl]]]]].
         pose proof (entry_fs fields _ _ _ He) as Hf. fold fs in Hf. apply In_nth_error in Hf as [i Hi].
@@ -700,7 +823,8 @@ Section CompositeDecodes.
   Hypothesis E2 : members_distinct m all = true.
   Hypothesis E3 : forall s, In s all -> sel_local S frs m s = true.
   Hypothesis E4 : has_fragment all = true -> is_object_type S m = true \/ exists k, first_typename all = Some k.
-  Hypothesis E5 : NoDup (map (fun kf : name * name => lower_bytes (fst kf)) (direct_fields all)).
+  Hypothesis E5 : forall k1 f1 k2 f2, In (k1, f1) (direct_fields all) -> In (k2, f2) (direct_fields all) ->
+                                      lower_bytes k1 = lower_bytes k2 -> k1 = k2 /\ f1 = f2.
   Hypothesis E6 : forall k f, In (k, f) (direct_fields all) ->
                               begins_with_letter k = true \/ (is_typename k = true /\ is_typename f = true).
   Variable idx : N.
@@ -723,7 +847,7 @@ Section CompositeDecodes.
     intros Hconf.
     destruct (uniform_bound all (Qs S m all fields P tn rfs)) as [K HK].
     { intros s k k'. apply Qs_mono. }
-    { intros s Hs. apply (Qs_exists S frs m d all fields conds F4 F5 F6 E3 idx P HP Hsyn HspreadD tn rfs Hconf s Hs). }
+    { intros s Hs. apply (Qs_exists S frs m d all fields conds F4 F5 F6 E3 E5 idx P HP Hsyn HspreadD tn rfs Hconf s Hs). }
     destruct (base_exists S frs m all fields F1 F3 E2 E5 E6 P tn rfs Hconf K HK) as [base [Hbase Hslots]].
     destruct (final_value S frs HS m d all fields conds F1 F3 F4 F5 F6 E1 E2 E3 E4 E6 idx P Hsyn tn rfs Hconf K HK base Hslots)
       as [sv' [Hrun Hl]].
